@@ -33,7 +33,19 @@ def named_fn(arg, f, hook=None, tag=None):
 
 
 GRAPHS = ["lin_s", "lin_d_s", "gmrf_d_s", "lmrf_d", "two_lik", "nonlin", "xz_s", "laplace_b", "mean_m", "cmrf_d",
-          "lognormal", "lognormal_cov_s", "lin_sqrtprecF", "reg_d", "lin_geom", "sigdep_x", "direct_param", "cov_sd"]   # ("reg_s" is buildable but RegularizedGaussian has no log-density: not a C01/C11 graph)
+          "lognormal", "lognormal_cov_s", "lin_sqrtprecF", "reg_d", "lin_geom", "sigdep_x", "direct_param", "cov_sd", "selfnamed", "cov_sdt"]   # ("reg_s" is buildable but RegularizedGaussian has no log-density: not a C01/C11 graph)
+
+
+def _lg(r, cov):
+    """log N(r; 0, cov*I) for a scalar variance, written out in numpy (reference, independent of the library)."""
+    r = np.asarray(r, float).ravel()
+    return float(-0.5 * r.size * np.log(2 * np.pi * cov) - 0.5 * (r @ r) / cov)
+
+
+def _lgam(x, a, b):
+    """log Gamma(x; shape a, rate b)."""
+    from scipy.special import gammaln
+    return float(a * np.log(b) - gammaln(a) + (a - 1) * np.log(x) - b * x)
 
 
 def build(rec, hook=None):
@@ -179,6 +191,26 @@ def build(rec, hook=None):
         dens = [y, x, s, d]
         vals = {"y": ydata, "x": xval, "s": pos(), "d": pos()}
         out["models"]["A"] = M
+    elif g == "selfnamed":
+        # the hyper-parameter is called like the attribute it enters through, with a NON-identity callable
+        prec = Gamma(2.0, 1.0, name="prec")
+        x = Gaussian(np.zeros(n), prec=lambda prec: 2.5 * prec, name="x")
+        M = LinearModel(A)
+        y = Gaussian(M(x), 0.4, name="y")
+        dens = [y, x, prec]
+        vals = {"y": ydata, "x": xval, "prec": pos()}
+        out["models"]["A"] = M
+    elif g == "cov_sdt":
+        # one callable with THREE arguments, fixed in up to three separate steps
+        s = Gamma(1.0, 0.1, name="s")
+        d = Gamma(2.0, 0.5, name="d")
+        t = Gamma(1.5, 0.7, name="t")
+        x = Gaussian(np.zeros(n), 0.8, name="x")
+        M = LinearModel(A)
+        y = Gaussian(M(x), cov=lambda s, d, t: 1.0 / (s + 0.5 * d) + 0.1 * t, name="y")
+        dens = [y, x, s, d, t]
+        vals = {"y": ydata, "x": xval, "s": pos(), "d": pos(), "t": pos()}
+        out["models"]["A"] = M
     elif g == "direct_param":
         # a conditioning variable that IS a parameter left unspecified (mean=None), not a callable: the variable of the
         # joint is literally called "mean"
@@ -217,6 +249,26 @@ def build(rec, hook=None):
         out["models"]["A"] = M
     else:
         raise ValueError(g)
+    # closed forms written out by the harness for the all-Gaussian/Gamma graphs: the reference for the complete assignment
+    # that does not pass through any library conditioning code
+    if g == "lin_s":
+        out["closed_form"] = lambda v: _lg(v["y"] - A @ v["x"], 1 / v["s"]) + _lg(v["x"], 0.8) + _lgam(v["s"], 1.0, 0.1)
+    elif g == "lin_d_s":
+        out["closed_form"] = lambda v: (_lg(v["y"] - A @ v["x"], 1 / v["s"]) + _lg(v["x"], 1 / v["d"])
+                                        + _lgam(v["d"], 1.0, 0.1) + _lgam(v["s"], 2.0, 0.5))
+    elif g == "cov_sd":
+        out["closed_form"] = lambda v: (_lg(v["y"] - A @ v["x"], 1.0 / (v["s"] + 0.5 * v["d"])) + _lg(v["x"], 0.8)
+                                        + _lgam(v["s"], 1.0, 0.1) + _lgam(v["d"], 2.0, 0.5))
+    elif g == "cov_sdt":
+        out["closed_form"] = lambda v: (_lg(v["y"] - A @ v["x"], 1.0 / (v["s"] + 0.5 * v["d"]) + 0.1 * v["t"]) + _lg(v["x"], 0.8)
+                                        + _lgam(v["s"], 1.0, 0.1) + _lgam(v["d"], 2.0, 0.5) + _lgam(v["t"], 1.5, 0.7))
+    elif g == "selfnamed":
+        out["closed_form"] = lambda v: (_lg(v["y"] - A @ v["x"], 0.4) + _lg(v["x"], 1 / (2.5 * v["prec"]))
+                                        + _lgam(v["prec"], 2.0, 1.0))
+    elif g == "nonlin":
+        out["closed_form"] = lambda v: (_lg(v["y"] - np.tanh(A @ v["x"]), 1 / v["s"])
+                                        + float(np.sum([_lg(v["x"][i] - 0.3, c_) for i, c_ in enumerate(np.linspace(0.5, 1.5, n))]))
+                                        + _lgam(v["s"], 1.0, 0.1))
     J = JointDistribution(*dens)
     out.update(J=J, names=[d_.name for d_ in dens], vals=vals, dens={d_.name: d_ for d_ in dens})
     return out
